@@ -347,10 +347,14 @@ def ingestAll (queriers : List (BList × Nat)) (ifName : BList) (ifIdx now : Nat
   | acc, [] => acc
   | acc, r :: rest => ingestAll queriers ifName ifIdx now forUs (ingestOne queriers ifName ifIdx now forUs acc r) rest
 
-/-- `get_addresses_for_host(host)`: the addresses cached under `lower host`, grouped by the
-    owner name as it was received.  Expired entries are not filtered out (as in the Rust). -/
-def addressesForHost (c : Cache) (host : BList) : List (BList × List AddrItem) :=
-  let es := (c.addr.get (lower host)).getD []
+/-- `get_addresses_for_host(host)` at `now`: the addresses cached under `lower host`, grouped by
+    the owner name as it was received.  Entries that are expired at `now` (`is_expired`:
+    `now ≥ expires`) but not evicted yet are skipped (repair of D44), and only address records
+    count (`downcast_ref::<DnsAddress>`), so an owner name without a live address has no group:
+    no group is empty. -/
+def addressesForHost (c : Cache) (now : Nat) (host : BList) : List (BList × List AddrItem) :=
+  let es := ((c.addr.get (lower host)).getD []).filter fun e =>
+    !e.record.isExpired now && (addrItemOf e).isSome
   ((es.map (·.record.name)).eraseDups).map fun n =>
     (n, ((es.filter fun e => e.record.name == n).filterMap addrItemOf).eraseDups)
 
@@ -358,11 +362,11 @@ def resolverChan (s : State) (host : BList) : Option Nat :=
   (s.resolvers.find? (·.1 == lower host)).map (·.2.1)
 
 /-- `AddressesFound` for every changed address record whose host is being resolved -/
-def hostFoundOuts (s : State) (c : Cache) (changes : List (Nat × BList)) : List Out :=
+def hostFoundOuts (s : State) (c : Cache) (now : Nat) (changes : List (Nat × BList)) : List Out :=
   (changes.filter fun ch => ch.1 == 1 || ch.1 == 28).flatMap fun ch =>
     match resolverChan s ch.2 with
     | none => []
-    | some chan => (addressesForHost c ch.2).map fun p => .event chan (.hfound p.1 p.2)
+    | some chan => (addressesForHost c now ch.2).map fun p => .event chan (.hfound p.1 p.2)
 
 /-- `get_instances_on_host(host)`: instances whose FIRST SRV names `host`, in any letter case
     (`eq_ignore_ascii_case`, repair of the case-sensitive address trigger) -/
@@ -388,7 +392,7 @@ def handleResponse (s : State) (now : Nat) (intf : Intf) (m : Wire.Msg) : State 
     { cache := s.cache, timers := [], changes := [], outs := [] }
     (m.answers ++ m.authorities ++ m.additionals)
   let s1 := addTimers { s with cache := ing.cache } ing.timers
-  let o2 := hostFoundOuts s1 ing.cache ing.changes
+  let o2 := hostFoundOuts s1 ing.cache now ing.changes
   let r := resolveUpdated s1 now (updatedInstances ing.cache ing.changes)
   (r.1, ing.outs ++ o2 ++ r.2)
 
@@ -453,7 +457,7 @@ def execResolveHost (s : State) (now : Nat) (repeating : Bool) (host : BList) (d
                  resolvers := (key, ch, timeout.map (now + ·)) :: s.resolvers.filter (fun q => q.1 != key),
                  timers := (match timeout.map (now + ·) with | some t => [t] | none => []) ++ s.timers }
     let o1 : List Out :=
-      if repeating then [] else (addressesForHost s.cache host).map fun p => .event ch (.hfound p.1 p.2)
+      if repeating then [] else (addressesForHost s.cache now host).map fun p => .event ch (.hfound p.1 p.2)
     let next := now + delay * 1000
     let s2 := if withinDeadline s1 key next then addRerun s1 next (.resolveHost host (Sched.nextDelay delay) ch) else s1
     (s2, [.event ch .hstarted] ++ o1 ++ [sendQuery s.cache now [(host, 1), (host, 28)]])
